@@ -209,24 +209,26 @@ func (f *frame) invEnv(li *loopInfo, st *State, phiTerm func(p *ssa.Phi) string)
 
 func (f *frame) autoInvariants(li *loopInfo, st *State, phiTerm func(p *ssa.Phi) string) []string {
 	var out []string
-	// heap arrays that the loop writes only inside objects allocated by this activation keep the content of
-	// every object that existed at function entry
-	if eff := f.loopEff[li]; eff != nil && !eff.all {
-		t := f.t
-		for _, name := range sortedKeys(eff.arrs) {
-			if eff.dirty[name] || strings.HasPrefix(name, "L:") {
-				continue
+	// heap arrays that the loop writes only inside objects allocated within the loop keep the content of
+	// every object that existed when the loop was entered
+	if eff := f.loopEff[li]; eff != nil && !eff.all && !eff.ext {
+		if pre := f.loopPre[li]; pre != nil && st != pre {
+			t := f.t
+			for _, name := range sortedKeys(eff.arrs) {
+				if eff.dirty[name] || strings.HasPrefix(name, "L:") {
+					continue
+				}
+				sortA := t.descSort(eff.arrs[name])
+				if !strings.HasPrefix(sortA, "(Array Int ") {
+					continue
+				}
+				cur, old := t.get(st, name, sortA), t.get(pre, name, sortA)
+				if cur == old {
+					continue
+				}
+				qv := q(t.B.fresh("?p"))
+				out = append(out, fmt.Sprintf("(forall ((%s Int)) (! (=> (and (<= 0 %s) (<= %s %s)) (= (select %s %s) (select %s %s))) :pattern ((select %s %s))))", qv, qv, qv, pre.alloc, cur, qv, old, qv, cur, qv))
 			}
-			sortA := t.descSort(eff.arrs[name])
-			if !strings.HasPrefix(sortA, "(Array Int ") {
-				continue
-			}
-			cur, old := t.get(st, name, sortA), t.get(f.entry, name, sortA)
-			if cur == old {
-				continue
-			}
-			qv := q(t.B.fresh("?p"))
-			out = append(out, fmt.Sprintf("(forall ((%s Int)) (! (=> (and (<= 0 %s) (<= %s %s)) (= (select %s %s) (select %s %s))) :pattern ((select %s %s))))", qv, qv, qv, f.entry.alloc, cur, qv, old, qv, cur, qv))
 		}
 	}
 	if phi, _, lenV := f.rangeIndexInfo(li); phi != nil && lenV != nil {
@@ -276,10 +278,19 @@ func (f *frame) enterLoop(li *loopInfo, es []edge) (string, *State, error) {
 	// 2. havoc
 	cond, st := f.mergeEdges(es)
 	eff := f.loopEff[li]
+	if f.loopPre == nil {
+		f.loopPre = map[*loopInfo]*State{}
+	}
+	f.loopPre[li] = st.clone()
 	preAlloc := st.alloc
 	if eff.all {
 		cond = t.havocAll(st, cond, !eff.trace)
 	} else {
+		if eff.ext {
+			t.trust("external library callees are assumed not to modify objects of types declared in this repository")
+			cond = t.havocHeap(st, cond, !eff.trace, true)
+			preAlloc = st.alloc
+		}
 		if eff.alloc {
 			st.alloc = t.B.declConst(t.B.fresh("alloc@loop"), "Int")
 			cond = and(cond, fmt.Sprintf("(>= %s %s)", st.alloc, preAlloc))
